@@ -139,6 +139,9 @@ func H_C06_FourTables() {
 	h := vNewDBEnvU(vUniverse)
 	defer h.fs.Cleanup()
 	h.checkLeaks = true
+	if vrt.Choose("dirspelling", 2) == 1 {
+		h.dirSuffix = "/" // the directory given with a trailing separator
+	}
 	opts := []ExtraOption{MemstoreSizeBytes(math.MaxUint64), WriteBufferSizeBytes(64), ReadBufferSizeBytes(64)}
 	vrt.Assert(h.open(opts...) == nil, "four/open-no-error")
 	a, b := vUniverse[0], vUniverse[1]
@@ -172,4 +175,61 @@ func H_C06_FourTables() {
 	h.close()
 	vrt.TraceBool("done", true)
 	vrt.Reach("four/end")
+}
+
+// H_C06_TwoCycles: two compaction cycles in a row that both leave out the (larger) oldest table. The first one
+// carries a tombstone over from a newer table; a table without tombstones is flushed; the second one merges the
+// carried-over tombstone with it. The deleted key, whose value lives in the oldest table, must stay deleted.
+func H_C06_TwoCycles() {
+	vrt.RandPromoteBudget(0)
+	h := vNewDBEnvU(vUniverse)
+	defer h.fs.Cleanup()
+	h.checkLeaks = true
+	opts := []ExtraOption{MemstoreSizeBytes(math.MaxUint64), WriteBufferSizeBytes(64), ReadBufferSizeBytes(64)}
+	vrt.Assert(h.open(opts...) == nil, "twocycles/open-no-error")
+	a, b := vUniverse[0], vUniverse[1]
+	// oldest table: both keys (the largest table)
+	h.put(a, []byte{1})
+	h.put(b, []byte{1})
+	h.forceRotation()
+	// two small newer tables; one of them deletes a key of the oldest table
+	victim := vUniverse[vrt.Choose("victim", 2)]
+	other := a
+	if vrt.EqBytes(victim, a) {
+		other = b
+	}
+	if vrt.Choose("order", 2) == 0 {
+		h.del(victim)
+		h.forceRotation()
+		h.put(other, []byte{2})
+		h.forceRotation()
+	} else {
+		h.put(other, []byte{2})
+		h.forceRotation()
+		h.del(victim)
+		h.forceRotation()
+	}
+	h.dropReadStore()
+	// size limit = size of the oldest table: it is never selected by size, the smaller ones are
+	h.db.sstableManager.managerLock.RLock()
+	limit := h.db.sstableManager.allSSTableReaders[0].MetaData().TotalBytes
+	h.db.sstableManager.managerLock.RUnlock()
+	h.db.compactedMaxSizeBytes = limit
+	h.db.compactionRatio = 2.0 // never by ratio
+	h.db.compactionFileThreshold = 0
+	h.compactionCycle()
+	vrt.Assert(h.cycles == 1 && h.tables() == 2, "twocycles/first-cycle-merged-the-two-newer-tables")
+	h.checkReads("twocycles/reads-after-first-cycle")
+	h.put(other, []byte{3})
+	h.forceRotation()
+	h.dropReadStore()
+	h.compactionCycle()
+	vrt.Assert(h.cycles == 2 && h.tables() == 2, "twocycles/second-cycle-merged-again-without-the-oldest")
+	h.checkReads("twocycles/reads-after-second-cycle")
+	h.close()
+	vrt.Assert(h.open(opts...) == nil, "twocycles/reopen-no-error")
+	h.checkReads("twocycles/reads-after-restart")
+	h.close()
+	vrt.TraceBool("done", true)
+	vrt.Reach("twocycles/end")
 }
